@@ -1,5 +1,5 @@
 """C16 -- a decorator changes only labels, annotations, status and finalizer of its target."""
-from props import sync_level, DECORATOR
+from props import sync_level, all_families, DECORATOR
 import fam_dec, fam_fin
 from plan_fin import FIN_PLAN
 
@@ -28,5 +28,5 @@ MANIFEST = dict(
 
 
 def run(scr, tier, replay_file):
-    res = sync_level(scr, tier, "C16", "C16_", PLAN, replay_file)
+    res = sync_level(scr, tier, "C16", "C16_", all_families(PLAN), replay_file)
     return res
